@@ -255,6 +255,8 @@ theorem prepareResponse_spec (m m' : CMsg) (h : prepareResponse m = .ok m') (hco
   obtain ⟨c2, hc2, h⟩ := bind_ok h
   obtain ⟨m3, h3, h⟩ := bind_ok h
   obtain ⟨c3, hc3, h⟩ := bind_ok h
+  unfold respStage1 at h1
+  unfold respStage2 at h2
   have s3 := setChunked_spec m2 m3 c2 h3
   have hc3' := isChunked_of_set m2 m3 c2 h3
   rw [hc3'] at hc3
@@ -429,6 +431,207 @@ theorem prepareRequest_idem (m m' : CMsg) (h : prepareRequest m = .ok m') : prep
       simp only [bind, Except.bind, hset, hc, hlen]
     · rw [if_neg hs]
       simp only [bind, Except.bind, hset, hc, hlen]
+
+theorem del_put_same (h : Coll) (k v : Bytes) : (h.put k v).del k = h.del k := by
+  induction h with
+  | nil => simp [Coll.put, Coll.del]
+  | cons e h ih =>
+    unfold Coll.put
+    by_cases he : (e.1 == k) = true
+    · simp only [he, if_true]
+      unfold Coll.del
+      simp [he]
+    · simp only [he]
+      simp only [Bool.false_eq_true, if_false]
+      unfold Coll.del
+      simp only [he, Bool.false_eq_true, if_false]
+      rw [ih]
+
+/-- the state before the last stage of `ComposedResponse.prepare()` -/
+structure Mid (m m3 : CMsg) (c2 : Bool) : Prop where
+  status : m3.status = m.status
+  head : m3.reqHead = m.reqHead
+  chunked : isChunked m3.headers = .ok c2
+  bodyChunked : m3.bodyChunked = c2
+  nocl : c2 = true → m3.headers.get? sCL = none
+  bodiless : bodilessStatus m.status = true → m3.pieces = [] ∧ c2 = false
+  coded : ∀ v, m3.headers.get? sCE = some v → m3.coded = true ∧ (bodilessStatus m.status = false → c2 = true)
+
+theorem prepareResponse_mid (m m' : CMsg) (h : prepareResponse m = .ok m') :
+    ∃ m3 c2, Mid m m3 c2 ∧ m' = responseFinish m3 c2 := by
+  unfold prepareResponse at h
+  obtain ⟨m1, h1, h⟩ := bind_ok h
+  obtain ⟨m2, h2, h⟩ := bind_ok h
+  obtain ⟨c2, hc2, h⟩ := bind_ok h
+  obtain ⟨m3, h3, h⟩ := bind_ok h
+  obtain ⟨c3, hc3, hfin⟩ := bind_ok h
+  unfold respStage1 at h1
+  unfold respStage2 at h2
+  have s3 := setChunked_spec m2 m3 c2 h3
+  have hc3' := isChunked_of_set m2 m3 c2 h3
+  rw [hc3'] at hc3
+  injection hc3 with hc3; subst hc3
+  refine ⟨m3, c2, ?_, by injection hfin with hfin; exact hfin.symm⟩
+  -- stage 1
+  have p1 : m1.status = m.status ∧ m1.reqHead = m.reqHead ∧
+      (bodilessStatus m.status = true → m1.pieces = [] ∧ (m1.headers.get? sTE = none ∨ m1.headers.get? sTE = some [])) := by
+    by_cases hb : bodilessStatus m.status = true
+    · rw [if_pos hb] at h1
+      have s1 := setChunked_spec _ m1 false h1
+      exact ⟨s1.2.2.2.1, s1.2.2.2.2.1, fun _ => ⟨s1.2.1, (s1.2.2.2.2.2.2.2.2.2 rfl).1⟩⟩
+    · rw [if_neg hb] at h1
+      injection h1 with h1; subst h1
+      exact ⟨rfl, rfl, fun hb' => absurd hb' hb⟩
+  -- stage 2
+  have p2 : m2.status = m1.status ∧ m2.reqHead = m1.reqHead ∧ m2.pieces = m1.pieces ∧
+      (bodilessStatus m.status = true → m2.headers.get? sTE = m1.headers.get? sTE) ∧
+      (∀ v, m2.headers.get? sCE = some v → m2.coded = true ∧ (bodilessStatus m.status = false → m2.headers.get? sTE = some schunked)) := by
+    split at h2
+    · rename_i v hv
+      by_cases hb : bodilessStatus m.status = true
+      · simp only [hb, Bool.not_true, Bool.false_eq_true, if_false] at h2
+        injection h2 with h2; subst h2
+        exact ⟨rfl, rfl, rfl, fun _ => rfl, fun _ _ => ⟨rfl, fun hb' => by rw [hb] at hb'; cases hb'⟩⟩
+      · simp only [hb, Bool.not_false, if_true] at h2
+        have s2 := setChunked_spec _ m2 true h2
+        exact ⟨s2.2.2.2.1, s2.2.2.2.2.1, s2.2.1, fun hb' => absurd hb' hb,
+          fun _ _ => ⟨s2.2.2.1, fun _ => (s2.2.2.2.2.2.2.2.2.1 rfl).1⟩⟩
+    · rename_i hv
+      injection h2 with h2; subst h2
+      exact ⟨rfl, rfl, rfl, fun _ => rfl, fun v hv' => by rw [hv] at hv'; cases hv'⟩
+  refine ⟨by rw [s3.2.2.2.1, p2.1, p1.1], by rw [s3.2.2.2.2.1, p2.2.1, p1.2.1], hc3', s3.1,
+    fun hc => (s3.2.2.2.2.2.2.2.2.1 hc).2, ?_, ?_⟩
+  · intro hb
+    refine ⟨by rw [s3.2.1, p2.2.2.1]; exact (p1.2.2 hb).1, ?_⟩
+    cases hc : c2 with
+    | false => rfl
+    | true =>
+      exfalso
+      have := (isChunked_true _).mp (hc ▸ hc2)
+      rw [p2.2.2.2.1 hb] at this
+      rcases (p1.2.2 hb).2 with t | t <;> rw [t] at this <;> simp at this
+      exact absurd this (by decide +kernel)
+  · intro v hv
+    rw [s3.2.2.2.2.2.2.2.1] at hv
+    obtain ⟨hco, hte⟩ := p2.2.2.2.2 v hv
+    refine ⟨by rw [s3.2.2.1]; exact hco, fun hb => ?_⟩
+    have := (isChunked_true _).mpr (hte hb)
+    rw [this] at hc2
+    injection hc2 with hc2; exact hc2.symm
+
+/-- **a second `prepare()` of a response changes nothing** (not for responses to HEAD: finding F46) -/
+theorem prepareResponse_idem (m m' : CMsg) (h : prepareResponse m = .ok m') (hh : m.reqHead = false) :
+    prepareResponse m' = .ok m' := by
+  obtain ⟨m3, c2, mid, rfl⟩ := prepareResponse_mid m m' h
+  have hh3 : m3.reqHead = false := by rw [mid.head]; exact hh
+  have hte : c2 = true → m3.headers.get? sTE = some schunked := fun hc => (isChunked_true _).mp (hc ▸ mid.chunked)
+  have hnte : c2 = false → (m3.headers.get? sTE = none ∨ m3.headers.get? sTE = some []) :=
+    fun hc => (isChunked_false _).mp (hc ▸ mid.chunked)
+  by_cases hc : c2 = true
+  · -- chunked: the last stage changed nothing
+    subst hc
+    have hnb : bodilessStatus m.status = false := by
+      cases hb : bodilessStatus m.status with
+      | false => rfl
+      | true => have := (mid.bodiless hb).2; cases this
+    have h304 : (m3.status == 304) = false := by
+      rw [mid.status]
+      cases h3 : (m.status == 304) with
+      | false => rfl
+      | true =>
+        have : m.status = 304 := by simpa using h3
+        rw [this] at hnb; revert hnb; decide
+    have hfin : responseFinish m3 true = m3 := by
+      unfold responseFinish
+      simp [h304, hh3]
+    rw [hfin]
+    have hset : setChunked m3 true = .ok m3 := setChunked_fix m3 true mid.bodyChunked (fun _ => ⟨hte rfl, mid.nocl rfl⟩) (fun h => by cases h)
+    have st1 : respStage1 m3 = .ok m3 := by
+      unfold respStage1; rw [mid.status, hnb]; rfl
+    have st2 : respStage2 (bodilessStatus m3.status) m3 = .ok m3 := by
+      unfold respStage2
+      cases hce : m3.headers.get? sCE with
+      | none => rfl
+      | some v =>
+        have hco := (mid.coded v hce).1
+        have e : ({ m3 with coded := true } : CMsg) = m3 := by cases m3; simp_all
+        have hb3 : bodilessStatus m3.status = false := by rw [mid.status]; exact hnb
+        simp only [hb3, Bool.not_false, if_true, e, hset]
+    unfold prepareResponse
+    simp only [bind, Except.bind, st1, st2, mid.chunked, hset, hfin]
+  · have hc' : c2 = false := by cases c2 <;> simp_all
+    subst hc'
+    have hset : setChunked m3 false = .ok m3 := setChunked_fix m3 false mid.bodyChunked (fun h => by cases h) (fun _ => hnte rfl)
+    have hb3eq : bodilessStatus m3.status = bodilessStatus m.status := by rw [mid.status]
+    -- the result of the last stage, explicitly
+    obtain ⟨H, hH, hHte, hHcl, hHce⟩ : ∃ H : Coll, responseFinish m3 false = { m3 with headers := H } ∧
+        H.get? sTE = m3.headers.get? sTE ∧
+        (if (m3.status == 304) = true then H.get? sCL = none ∧ H.get? sCE = none
+          else H.get? sCL = some (natToDec (bodyLen m3)) ∧ H.get? sCE = m3.headers.get? sCE) ∧
+        (if (m3.status == 304) = true then H = ((m3.headers.put sCL (natToDec (bodyLen m3))).del sCL).del sCE
+          else H = m3.headers.put sCL (natToDec (bodyLen m3))) := by
+      by_cases h3 : (m3.status == 304) = true
+      · refine ⟨((m3.headers.put sCL (natToDec (bodyLen m3))).del sCL).del sCE, ?_, ?_, ?_, ?_⟩
+        · unfold responseFinish; simp [h3, hh3]
+        · simp
+        · simp only [h3, if_true]
+          refine ⟨by simp, by simp⟩
+        · simp only [h3, if_true]
+      · refine ⟨m3.headers.put sCL (natToDec (bodyLen m3)), ?_, ?_, ?_, ?_⟩
+        · unfold responseFinish; simp [h3, hh3]
+        · simp
+        · simp only [h3]; simp
+        · simp only [h3]; simp
+    rw [hH]
+    -- abbreviations
+    have hset' : setChunked { m3 with headers := H } false = .ok { m3 with headers := H } :=
+      setChunked_fix _ false mid.bodyChunked (fun h => by cases h) (fun _ => by simpa [hHte] using hnte rfl)
+    have hch' : isChunked ({ m3 with headers := H } : CMsg).headers = .ok false :=
+      (isChunked_false _).mpr (by simpa [hHte] using hnte rfl)
+    have st1 : respStage1 { m3 with headers := H } = .ok { m3 with headers := H } := by
+      unfold respStage1
+      by_cases hb : bodilessStatus m.status = true
+      · have hp := (mid.bodiless hb).1
+        have e : ({ ({ m3 with headers := H } : CMsg) with pieces := [] } : CMsg) = { m3 with headers := H } := by
+          cases m3; simp_all
+        simp only [hb3eq, hb, if_true, e, hset']
+      · simp only [hb3eq, hb, Bool.false_eq_true, if_false]
+    have st2 : respStage2 (bodilessStatus ({ m3 with headers := H } : CMsg).status) { m3 with headers := H } = .ok { m3 with headers := H } := by
+      unfold respStage2
+      cases hce : ({ m3 with headers := H } : CMsg).headers.get? sCE with
+      | none => rfl
+      | some v =>
+        have hce' : H.get? sCE = some v := hce
+        by_cases h3 : (m3.status == 304) = true
+        · simp only [h3, if_true] at hHcl
+          rw [hHcl.2] at hce'; cases hce'
+        · simp only [h3] at hHcl
+          rw [hHcl.2] at hce'
+          obtain ⟨hco, hcc⟩ := mid.coded v hce'
+          have hb : bodilessStatus m.status = true := by
+            cases hb : bodilessStatus m.status with
+            | true => rfl
+            | false => have := hcc hb; cases this
+          have e : ({ ({ m3 with headers := H } : CMsg) with coded := true } : CMsg) = { m3 with headers := H } := by
+            cases m3; simp_all
+          have hb3 : bodilessStatus m3.status = true := by rw [hb3eq]; exact hb
+          simp only [hb3, Bool.not_true, Bool.false_eq_true, if_false, e]
+    have hfin : responseFinish { m3 with headers := H } false = { m3 with headers := H } := by
+      unfold responseFinish
+      have hbl : bodyLen ({ m3 with headers := H } : CMsg) = bodyLen m3 := rfl
+      by_cases h3 : (m3.status == 304) = true
+      · simp only [h3, if_true] at hHcl hHce
+        have e1 : ((H.put sCL (natToDec (bodyLen m3))).del sCL).del sCE = H := by
+          rw [del_put_same, del_of_get_none H sCL hHcl.1, del_of_get_none H sCE hHcl.2]
+        simp [h3, hh3]
+        exact e1
+      · simp only [h3] at hHcl hHce
+        simp only [Bool.false_eq_true, if_false] at hHcl hHce
+        have e1 : H.put sCL (natToDec (bodyLen m3)) = H := put_of_get H sCL _ hHcl.1
+        simp [h3, hh3]
+        exact e1
+    unfold prepareResponse
+    simp only [bind, Except.bind, st1, st2, hch', hset', hfin]
 
 /-! ### the theorems of the property -/
 
